@@ -591,6 +591,7 @@ class Gen:
         self.in_func = None      # rets of the function being generated
         self.in_switch = 0
         self.kinds = {}
+        self.tracers_ready = False
 
     def count(self, k):
         self.kinds[k] = self.kinds.get(k, 0) + 1
@@ -624,10 +625,19 @@ class Gen:
     def vars_of(self, scope, t):
         return [n for n, ty in scope.visible().items() if ty == t]
 
+    TRACERS = {"int": "ti", "bool": "tb", "string": "ts"}
+
+    def tracer(self, t, scope, depth):
+        """effects mode: a call of a tracer function that prints its tag and returns its second argument"""
+        self.counter += 1
+        return ("call", self.TRACERS[t], [("int", self.counter), self.expr(t, scope, depth)], [t])
+
     def expr(self, t, scope, depth=None):
         r = self.r
         if depth is None:
             depth = r.randrange(0, self.c.max_depth + 1)
+        if self.c.effects and self.tracers_ready and t in self.TRACERS and r.random() < 0.3:
+            return self.tracer(t, scope, max(0, depth - 1))
         vs = self.vars_of(scope, t)
         if t.startswith("[]"):
             return self.slice_expr(t, scope, depth)
@@ -713,6 +723,9 @@ class Gen:
     def index_expr(self, scope, depth):
         r = self.r
         k = r.random()
+        if self.c.effects and self.tracers_ready and k < 0.5:
+            self.counter += 1
+            return ("call", "ti", [("int", self.counter), ("int", r.randrange(0, 3))], ["int"])
         if k < 0.6:
             return ("int", r.randrange(0, 4))
         if k < 0.7:
@@ -1049,6 +1062,10 @@ class Gen:
         r = self.r
         g = Scope(None, "program")
         prog = []
+        if self.c.effects:
+            for t, name in self.TRACERS.items():
+                prog.append(("func", name, [("k", "int"), ("v", t)], [t], [("print", [("str", name), ("var", "k", "int")]), ("return", [("var", "v", t)])]))
+            self.tracers_ready = True
         n = r.randrange(1, self.c.max_stmts + 3)
         for _ in range(n):
             if self.c.funcs and r.random() < 0.3 and len(self.funcs) < 5:
